@@ -127,28 +127,29 @@ def forwardSubst (chol : CovMat K) (v : Array K) : Array K :=
 
 /-! ### sparse variant: `BlockDiagonal::cholDec`, `UpperBlockDiagonal`, `Homogenization::run` -/
 
-/-- one block of `BlockDiagonal::cholDec(tol)`; `none` = "return block" (not positive definite).
+/-- one block of `BlockDiagonal::cholDec(tol)`; `.error m'` = "return block" (not positive
+    definite) with the buffer as the C++ leaves it (rows before the failing pivot already factored).
     Same elimination as `CovMat::cholDec`; the pivot row is scaled by `sqrt(pivot)`:
     `*B++ = pivot = sqrt(pivot); for (; k; k--) *B++ /= pivot;` -/
-def bdCholBlock (tol : K) (m : CovMat K) : Option (CovMat K) :=
+def bdCholBlock (tol : K) (m : CovMat K) : Except (CovMat K) (CovMat K) :=
   ((List.range' 1 m.dim).foldlM (fun (st : CovMat K × Int) row =>
       let pivot := st.1.raw 0 st.2
-      if pivot < tol then (none : Option (CovMat K × Int)) else
+      if pivot < tol then (.error st.1 : Except (CovMat K) (CovMat K × Int)) else
       let k := min m.band (m.dim - row)
       let e := elimPtr m.band m.dim row st.2 pivot st.1
       let s := Scalar.sqrt pivot
-      some (scalePtr k st.2 s (e.rawSet st.2 s), st.2 + (k : Int) + 1))
+      .ok (scalePtr k st.2 s (e.rawSet st.2 s), st.2 + (k : Int) + 1))
     (m, (0 : Int))).map (·.1)
 
-/-- `BlockDiagonal::cholDec`: `.error block` (1-based) for the first block that is rejected;
-    blocks before it are already factored in place (as in the C++), later ones untouched -/
+/-- `BlockDiagonal::cholDec`: returns the (1-based) index of the first rejected block, or 0;
+    blocks before it are factored in place, the rejected one partially, later ones untouched -/
 def bdCholDec (tol : K) (blocks : List (CovMat K)) : Nat × List (CovMat K) :=
   let rec go (i : Nat) (done : List (CovMat K)) : List (CovMat K) → Nat × List (CovMat K)
     | [] => (0, done.reverse)
     | b :: rest =>
       match bdCholBlock tol b with
-      | none => (i, done.reverse ++ b :: rest)
-      | some f => go (i + 1) (f :: done) rest
+      | .error b' => (i, done.reverse ++ b' :: rest)
+      | .ok f => go (i + 1) (f :: done) rest
   go 1 [] blocks
 
 /-- `UpperBlockDiagonal` constructor for one block: (offset, length) of every row;
